@@ -1,5 +1,6 @@
 #!/bin/sh
 # Runs the repository's pinned suite with the verif guard OFF (no build tag) and prints a summary.
+export DBUS_SESSION_BUS_ADDRESS="${DBUS_SESSION_BUS_ADDRESS:-unix:path=/nonexistent/vmon-no-session-bus}"   # no session bus daemon per process (keyring init)
 export GOFLAGS=-mod=mod GOPROXY=off GOSUMDB=off GOTOOLCHAIN=local
 mkdir -p /verif/work; cd /repo && go test -json -vet=off -count=1 -timeout 25m ./... > /verif/work/baseline.json 2>/verif/work/baseline.err
 rc=$?
